@@ -134,7 +134,10 @@ fn main() {
     for i in 0..nb {
         let pick = rng.next() as usize;
         let l = [0usize, 7, 8, 16, 31, 32, 33, 35, 36, 37, 39, 40, 56, 64][(pick >> 3) % 14];
-        let img = untrusted::boundary_image(l, pick % 7, (pick >> 8) % untrusted::FIELD_VALUES, (pick >> 16) % untrusted::FIELD_VALUES, i, &mut rng);
+        let mut img = untrusted::boundary_image(l, pick % 7, (pick >> 8) % untrusted::FIELD_VALUES, (pick >> 16) % untrusted::FIELD_VALUES, i, &mut rng);
+        if i % 3 == 0 {
+            untrusted::fix_checksum(&mut img);
+        }
         untrusted::gate(&img, &mut st);
         ops += 1;
     }
